@@ -1,9 +1,17 @@
 SPECIFICATION Spec
 CONSTANTS
   Gor = {"g1", "g2"}
-  Addrs = {"A", "B"}
+  Eps = {"E"}
+  Svcs = {"e", "xe", "tx"}
+  Adv <- AdvAll
   MaxReq = 2
-  ConnLoss = TRUE
+  MaxLoss = 2
+  AuthMayRefuse = TRUE
   Dev_RUnlockUnderWriteLock = FALSE
-INVARIANTS TypeOK NoBadUnlock MutexOK AtMostOneConnPerEndpoint NoDeadlock
+  Dev_NilChannelWhenAllSkipped = FALSE
+  Dev_AuthFailureLeaksConnection = FALSE
+  Dev_DeadClientStaysInPool = FALSE
+  Dev_PoolKeyedByAdvertised = FALSE
+  Dev_CloserBeforeInsert = FALSE
+INVARIANTS TypeOK ProcessAlive NoBadUnlock MutexOK RequestOutcome ReturnedIsOpen AtMostOneConnPerEndpoint ExtraConnectionsClosed PoolHoldsLiveClients AllGetTheSharedClient NoDeadlock
 CHECK_DEADLOCK FALSE
